@@ -55,7 +55,7 @@ Shrink(S, k) ==
 \* get_dict_type
 GetDictType(v, k) ==
   IF Len(v.a) = 0 THEN TDict(TAny, TAny)
-  ELSE IF AllStrKeys(v) /\ Len(v.a) <= k
+  ELSE IF AllStrKeys(v) /\ AllFieldNames(v) /\ Len(v.a) <= k     \* keys that are identifiers (fix: _is_field_name)
        THEN TTD({TReq(v.a[i].a[1].n, GetType(v.a[i].a[2], k)) : i \in 1..Len(v.a)})
        ELSE TDict(Shrink({GetType(x, k) : x \in DKeys(v)}, k),
                   Shrink({GetType(x, k) : x \in DVals(v)}, k))
